@@ -98,7 +98,7 @@ impl Property for C12 {
         ]
     }
     fn cases(tier: Tier) -> u64 {
-        tier.pick(8_000, 400_000)
+        tier.pick(20_000, 400_000)
     }
     fn strategy(_tier: Tier) -> BoxedStrategy<Spec> {
         prop_oneof![
@@ -348,6 +348,6 @@ impl Property for C12 {
         crate::model::keyid::selftest()
     }
     fn nontrivial_floor() -> f64 {
-        0.9
+        0.6
     }
 }
